@@ -30,6 +30,10 @@ Init == ty \in Types /\ none \in BOOLEAN /\ lst \in BOOLEAN /\ descs \in BOOLEAN
 Next == UNCHANGED vars
 Spec == Init /\ [][Next]_vars
 RoundTrip == descs => ReadsBack(ty, none, lst)
+\* plain JSON lines (no descriptors): every line is typed on its own by the JSON value of each key -- text is a string
+\* field, an integral number a varint, a number with a fraction a float, true / false a boolean; everything else (null,
+\* arrays, objects) is read as a string field
+PlainFieldType(shape) == CASE shape = "string" -> "string" [] shape = "int" -> "varint" [] shape = "float" -> "float" [] shape = "bool" -> "boolean" [] OTHER -> "string"
 \* keys of a record document: the fields, the four reserved ones, and the two markers exactly when descriptors are on
 Keys(fields, withDescs) == fields \cup {"_source", "_classification", "_generated", "_version"} \cup (IF withDescs THEN {"_type", "_recorddescriptor"} ELSE {})
 =============================================================================
